@@ -473,3 +473,20 @@ Lemma sumq_notin rho rho' v ts : ~ In v (keys ts) -> (forall w, w <> v -> rho w 
 Proof.
   intros H K. apply sumq_ext. intros w Hw. apply K. intro E. subst. auto.
 Qed.
+
+Lemma coef_remove_other v w ts : v <> w -> coef v (remove_term w ts) = coef v ts.
+Proof.
+  intro N. induction ts as [| [u d] t IH]; simpl; auto. destruct (Nat.eqb w u) eqn:E.
+  - apply Nat.eqb_eq in E. subst. destruct (Nat.eqb v u) eqn:E2; auto. apply Nat.eqb_eq in E2. congruence.
+  - simpl. rewrite IH. reflexivity.
+Qed.
+Lemma coef_add_other v w c ts : v <> w -> coef v (add_term w c ts) = coef v ts.
+Proof.
+  intro N. induction ts as [| [u d] t IH]; simpl.
+  - destruct (Nat.eqb v w) eqn:E; auto. apply Nat.eqb_eq in E. congruence.
+  - destruct (Nat.ltb w u); simpl.
+    + destruct (Nat.eqb v w) eqn:E; auto. apply Nat.eqb_eq in E. congruence.
+    + destruct (Nat.eqb w u) eqn:E.
+      * apply Nat.eqb_eq in E. subst. destruct (Qeq_bool (d + c) 0); simpl; destruct (Nat.eqb v u) eqn:E2; auto; apply Nat.eqb_eq in E2; congruence.
+      * simpl. rewrite IH. reflexivity.
+Qed.
